@@ -538,6 +538,9 @@ def run(ck):
     driver = ck.lean_exe("c31driver", "TfelVerif/C31/Driver.lean")
     res = ck.lean(PROPS, PROPS)
     ck.lean_violations(res)
+    if not ck.quick:
+        for (mod, log) in ck.leanchecker(PROPS):
+            ck.violation("leanchecker:" + mod, "leanchecker rejects %s" % mod, {"log": log}, False)
 
     # ---------------------------------------------------------------- requests
     reqs = []      # (options, input, expected tokens or None, kinds, origin)
